@@ -17,7 +17,7 @@ THEOREMS = ['Fsic.C03.' + n for n in [
     'identical_duplicates_accepted', 'combine_error_class', 'symbol_order', 'names_partition', 'lags_leads_spec',
     'explicit_replace', 'min_only_raise', 'default_range_feasible', 'default_range_enumerated',
     'default_range_single', 'default_range_is_solve_range', 'default_range_is_accepted_periods']]
-RULE = ('grammar programs (gen_scripts.gen_program, multi-equation, named periods mixed with integer offsets, LHS '
+RULE = ('SIZE programs (11 / 25 / 120 names in each of the four classes; up to 250 in the thorough tier; many equations, many terms, long names; the definition text of both templates is executed and its lists compared with the build_model class) and grammar programs (gen_scripts.gen_program, multi-equation, named periods mixed with integer offsets, LHS '
         'offsets) plus AST mutations {duplicate equation, second different equation for one name, name used with two '
         'kinds, variable first read with a lead and later assigned / read with a lag}, rendered under plain and '
         'spacing layouts, crossed with instance histories for the default range (fresh / copy of a used instance / used wider instance reindexed down / reindexed to a longer and to a shifted span / lags and leads changed between calls, over range, list, tuple, NumPy int/str, str-list and PeriodIndex spans, span lengths LAGS+LEADS+{0,1,2,3}) and with lags/leads in {None,0,1,3} x min_lags/min_leads in {default,0,1,3} (full '
@@ -345,6 +345,22 @@ def run_program(ctx, rep, case, options, batch):
                 got = default_periods(Model, labels)
                 oracle_range(case, prog, o, n, got, wl, wd, rep)
                 rep.dist['range:' + ('empty' if not got.get('ok') else 'one-period' if len(got['ok']) == 1 else 'nonempty')] += 1
+            # executing the definition text (both templates) gives the lists the build_model class carries
+            if oi % 10 == 0:
+                import typing
+                for typed in (True, False):
+                    try:
+                        ns = {'BaseModel': fsic.BaseModel, 'np': __import__('numpy')}
+                        if typed:
+                            ns.update(List=typing.List, Optional=typing.Optional, Any=typing.Any)
+                        exec(P.build_model_definition(symbols, with_type_hints=typed, **kwargs_of(o)), ns)
+                        eattrs = class_attrs(ns['Model'])
+                    except Exception as e:  # noqa: BLE001
+                        eattrs = {'err': pc.exc_name(e)}
+                    if eattrs != attrs:
+                        bad = [k for k in attrs if eattrs.get(k) != attrs[k]]
+                        rep.violate('definition-exec-lists', f'exec(build_model_definition(with_type_hints={typed})) differs from the '
+                                    f'build_model class in {bad}: {[(k, eattrs.get(k)) for k in bad][:2]!s:.300}', info_of(case, opts=o))
             # the same settings as NumPy integer scalars (forms HEAD accepts; bool/float are left out: HEAD itself writes
             # `LAGS = True` / `2.0` for them): same lists, LAGS/LEADS plain ints of the same value
             if oi % 5 == 0 and any(v is not None for v in o.values()):
@@ -512,6 +528,30 @@ def clash_cases(rng):
     return out
 
 
+def size_cases(rng, sizes):
+    """SIZE as a dimension: N names in EACH of the four classes, many equations, many terms per equation, long names."""
+    out = []
+    for N in sizes:
+        long_ = N % 2 == 1
+        nm = (lambda k, i: f'{k}_long_descriptive_name_number_{i}') if long_ else (lambda k, i: f'{k}{i}')
+        eqs = []
+        for i in range(N):
+            terms = [gs.Term('var', nm('x', i), rng.choice([None, -1, 1])), gs.Term('param', nm('p', i), None),
+                     gs.Term('error', nm('e', i), None), gs.Term('var', nm('y', (i + 1) % N), -rng.randint(1, 3)),
+                     gs.Term('var', nm('x', (i * 7) % N), rng.choice([None, 2])), gs.Term('param', nm('p', (i * 3 + 1) % N), None)]
+            if i % 5 == 0:
+                terms += [gs.Term('var', nm('y', (i * 11 + 2) % N), None), gs.Term('error', nm('e', (i + 4) % N), None),
+                          gs.Term('var', nm('x', (i + 9) % N), -2)] * 2
+            rhs = terms[0]
+            for j, t in enumerate(terms[1:]):
+                rhs = gs.Bin('*' if j == 0 else rng.choice(['+', '-', '+']), rhs, t)
+            eqs.append(gs.Equation(gs.Term('var', nm('y', i), None), rhs))
+        rng.shuffle(eqs)
+        out.append({'prog': repr(gs.Program(eqs)), 'layout': rng.choice(['plain', 'tight', 'wide']),
+                    'labels': list(range(2000, 2012)), 'tag': f'size{N}'})
+    return out
+
+
 def no_variable_statements(rng):
     """Statements whose left-hand side is not one plain variable (fix d65c5fa: ParserError) and function/variable
     clashes in both orders (fix 3f601b8) — compared exactly, error class included."""
@@ -531,6 +571,9 @@ def run(ctx, rep):
     n_latin = (700 if quick else 12000) * ctx.scale
     direct_correspondence(ctx, rep)
     batch = []
+    for case in size_cases(ctx.sub_rng('size'), [11, 25, 120] if quick else [10, 11, 20, 21, 25, 31, 60, 120, 250]):
+        case['seed'], case['index'] = ctx.seed, -2
+        run_program(ctx, rep, case, latin_options()[::5], batch)
     for case in clash_cases(ctx.sub_rng('clash')):
         case['seed'], case['index'] = ctx.seed, -1
         run_program(ctx, rep, case, latin_options()[::4], batch)
